@@ -210,3 +210,39 @@ Theorem C17_saveIdentity_without_commit_refuted :
       lookup c (a_ids (fst (step b2 (IKeys (a_iqctr b1) [(c, (k', sid'))])))) = Some k.
 Proof. exact saveIdentity_without_commit_refuted. Qed.
 Print Assumptions C17_saveIdentity_without_commit_refuted.
+
+(* two contacts may hold the SAME identity key (the table is a map contact -> key; all theorems above quantify over
+   all key values, equal ones included).  Made explicit: no single input - a bundle or first message of another
+   contact presenting the very key remembered for c included - changes the remembered key of c *)
+Theorem C17_shared_key_pin_kept : forall a i c k,
+  a_auto a = false -> durable a -> i <> IWipe ->
+  lookup c (a_ids a) = Some k -> lookup c (a_ids (fst (step a i))) = Some k.
+Proof. exact shared_key_pin_kept_thm. Qed.
+Print Assumptions C17_shared_key_pin_kept.
+
+(* non-vacuity, computed: contacts 7 and 8 both remembered with key 1 (bundle / first message), restart, 7 changes to
+   key 2 (retry bundle refused, first message ignored), 8 still talks to us, then 8 changes to key 3 (first message
+   ignored): both pins stay at key 1 *)
+Theorem C17_shared_key_history :
+  snd (run (init false) history_shared_key) =
+  [ [OGetKeys 0 7]; [OMsg 7 1 EPk 50 0 1];
+    [ODeliver 8 2 2; OReceipt 8 2];
+    [];
+    [OMsg 7 3 EPk 50 1 1]; [OGetKeys 1 7]; [OErr 7];
+    [];
+    [ODeliver 8 5 5; OReceipt 8 5];
+    [] ]
+  /\ lookup 7 (a_ids (fst (run (init false) history_shared_key))) = Some 1
+  /\ lookup 8 (a_ids (fst (run (init false) history_shared_key))) = Some 1.
+Proof. exact shared_key_history_no_autotrust. Qed.
+Print Assumptions C17_shared_key_history.
+
+(* REFUTED for the variant whose save also deletes the rows of other contacts with the same key (seeded defect
+   C17-4): the other contact becomes unknown and any identity is trusted for it *)
+Theorem C17_save_identity_exclusive_refuted :
+  exists ids c c0 k k',
+    c <> c0 /\ k' <> k /\ lookup c0 ids = Some k /\ trusted ids c0 k' = false /\
+    lookup c0 (save_identity_exclusive ids c k) = None /\ trusted (save_identity_exclusive ids c k) c0 k' = true /\
+    lookup c0 (save_identity ids c k) = Some k /\ trusted (save_identity ids c k) c0 k' = false.
+Proof. exact save_identity_exclusive_refuted. Qed.
+Print Assumptions C17_save_identity_exclusive_refuted.
